@@ -6,6 +6,10 @@ An operator maps a document to the list of its corrupted versions, one per appli
 Line-level operators work on the *raw tokens* of one physical line (words `[A-Za-z0-9_]+`, runs of blanks, string
 literals, single other characters; the concatenation of the tokens is the line), so that everything outside the
 edited token is preserved byte for byte. Comment lines and blank lines have no sites.
+
+The last three operators (`join-lines`, `join-lines-flush`, `split-line`) move a line end. Unlike the others they do not always
+leave the language (two comment lines joined are one comment; a comment split before a `#` is two comments): for them the
+language model (`Parser.parse`) says which of their results are ill-formed (`Op.arbitrated`).
 -/
 import SymbolVerif.Model.Cats.Lexer
 namespace SymbolVerif.Cats.Corrupt
@@ -26,11 +30,20 @@ inductive Op where
   | dedentedMember      -- a member moved out of its declaration
   | emptyStruct         -- a struct without members
   | wrongArity          -- an attribute with the wrong number of arguments
+  | joinLines           -- the line end between two lines removed, the indentation of the second line kept
+  | joinLinesFlush      -- the same, the indentation of the second line removed as well
+  | splitLine           -- a line end inserted inside a line, in front of a token
   deriving DecidableEq, Repr, Inhabited
 
 def Op.all : List Op :=
   [.badWidth, .wrongCase, .oneCharName, .unknownKeyword, .unknownAttribute, .unknownTransform, .unknownCondOp,
-   .missingOperand, .missingBracket, .missingEquals, .missingFinalNewline, .dedentedMember, .emptyStruct, .wrongArity]
+   .missingOperand, .missingBracket, .missingEquals, .missingFinalNewline, .dedentedMember, .emptyStruct, .wrongArity,
+   .joinLines, .joinLinesFlush, .splitLine]
+
+/-- operators whose results are not all ill-formed: the language model decides for each result -/
+def Op.arbitrated : Op → Bool
+  | .joinLines | .joinLinesFlush | .splitLine => true
+  | _ => false
 
 def Op.name : Op → String
   | .badWidth => "bad-width" | .wrongCase => "wrong-case" | .oneCharName => "one-char-name"
@@ -39,6 +52,7 @@ def Op.name : Op → String
   | .missingOperand => "missing-operand" | .missingBracket => "missing-bracket" | .missingEquals => "missing-equals"
   | .missingFinalNewline => "missing-final-newline" | .dedentedMember => "dedented-member"
   | .emptyStruct => "empty-struct" | .wrongArity => "wrong-arity"
+  | .joinLines => "join-lines" | .joinLinesFlush => "join-lines-flush" | .splitLine => "split-line"
 
 def Op.ofName (s : String) : Option Op := Op.all.find? (·.name = s)
 
@@ -269,6 +283,26 @@ def docVariants (op : Op) (lines : List Chars) : List (List Chars) :=
         let tail := rest.drop n
         some (lines.take (i + 1) ++ (if tail.isEmpty then [[]] else tail))
       else none
+  | .joinLines | .joinLinesFlush =>
+    -- site i: the line end after line i is removed (with its `\r`), for every line that is followed by another line that ends in a
+    -- line end (the last line end is the business of `missing-final-newline`)
+    indexed.filterMap fun (i, l) =>
+      if i + 2 < lines.length then
+        let next := lines.getD (i + 1) []
+        let first := if l.getLast? == some '\r' then l.dropLast else l
+        some (lines.take i ++ [first ++ (if op == .joinLinesFlush then next.dropWhile isWs else next)] ++ lines.drop (i + 2))
+      else none
+  | .splitLine =>
+    -- a line end (the one the line itself has) in front of every significant token but the first, the rest of the line starting in
+    -- column 0 or with the indentation of the line; all lines that are not blank, comment lines included
+    indexed.flatMap fun (i, l) =>
+      if isBlankLine l || i + 1 ≥ lines.length then [] else
+      let toks := rawTokens l
+      let indent := l.takeWhile isWs
+      let eol : Chars := if l.getLast? == some '\r' then ['\r'] else []
+      ((significant toks).drop 1).flatMap fun (j, _) =>
+        [indent, []].map fun lead =>
+          lines.take i ++ [(toks.take j).flatten ++ eol, lead ++ (toks.drop j).flatten] ++ lines.drop (i + 1)
   | _ =>
     indexed.flatMap fun (i, l) => (lineVariants op l).map fun l' => lines.take i ++ [l'] ++ lines.drop (i + 1)
 
